@@ -39,6 +39,9 @@ enum Item {
     Cut { kind: usize, j: u64, how: CutKind },
     NotReading { kind: usize, how: EndKind },
     GoneBeforeAnswer { kind: usize, how: EndKind },
+    /// `count` clients one after the other, each sending a different prefix of a request
+    /// with a body and then vanishing; afterwards a probe, an idle period, a thread count
+    Many { count: usize, end: EndKind },
 }
 
 fn the_corpus() -> &'static Vec<Conv> {
@@ -139,8 +142,20 @@ fn items(tier: Tier) -> &'static Vec<Item> {
                 v.push(Item::GoneBeforeAnswer { kind: ki, how });
             }
         }
+        for count in if deep(tier) { vec![300usize, 1100] } else { vec![300usize] } {
+            for end in [EndKind::Close, EndKind::Reset, EndKind::HalfClose] {
+                v.push(Item::Many { count, end });
+            }
+        }
         v
     })
+}
+
+fn many_request() -> Vec<u8> {
+    let mut b = b"POST /many HTTP/1.1\r\nHost: t\r\nContent-Length: 1500\r\n\r\n".to_vec();
+    b.extend_from_slice(&payload(1500));
+    b.extend_from_slice(&get("/second"));
+    b
 }
 
 fn end_step(e: EndKind) -> Step {
@@ -172,6 +187,32 @@ fn scenario(it: &Item) -> (Scenario, String) {
             (
                 Scenario { conns: vec![ConnSpec::default()], script, app, probe_after: true, idle_after: false },
                 format!("request-prefix-then-{:?}{}", end, if *settle_first { "" } else { "-at-once" }).to_lowercase(),
+            )
+        }
+        Item::Many { count, end } => {
+            let rq = many_request();
+            let offs = boundary_offsets(&rq[..80]);
+            let mut script = Vec::new();
+            for i in 0..*count {
+                // prefixes: inside the head (boundary offsets), inside the body, complete
+                let k = match i % 3 {
+                    0 => offs[(i / 3) % offs.len()],
+                    1 => 60 + (i * 37) % 1400,
+                    _ => rq.len(),
+                };
+                script.push((i, Step::Connect));
+                if k > 0 {
+                    script.push((i, Step::Send(rq[..k].to_vec())));
+                }
+                if i % 2 == 0 {
+                    script.push((i, Step::Settle));
+                }
+                script.push((i, end_step(*end)));
+            }
+            script.push((0, Step::Settle));
+            (
+                Scenario { conns: vec![ConnSpec::default(); *count], script, app: AppProgram::uniform(ReqPlan { read: ReadPlan::all(512), finish: Finish::Respond(RespSpec::ok(700)) }), probe_after: true, idle_after: true },
+                format!("many-clients-then-{:?}", end).to_lowercase(),
             )
         }
         Item::Cut { kind, j, how } => {
@@ -206,6 +247,21 @@ fn scenario(it: &Item) -> (Scenario, String) {
 }
 
 fn judge(sc: &Scenario, obs: &Obs, res: &tiny_http::verif_rt::core::RunResult) -> Vec<Failure> {
+    if sc.conns.len() > 1 {
+        // many vanished clients: nobody panics, the run ends, the server serves a fresh
+        // connection, and no worker stays behind (the server has been dropped and 6 s have
+        // passed: only its 4 minimum workers may still be parked)
+        let mut f = judge_robust(res, true);
+        if res.end == tiny_http::verif_rt::core::End::Clean {
+            if obs.probe_ok != Some(true) {
+                f.push(Failure { clause: "server-unusable", desc: format!("after {} vanished clients a fresh connection was not accepted and served", sc.conns.len()) });
+            }
+            if obs.live_threads_end > 8 {
+                f.push(Failure { clause: "workers-stuck", desc: format!("{} threads are still alive 6 s after {} clients vanished and the server was dropped", obs.live_threads_end, sc.conns.len()) });
+            }
+        }
+        return f;
+    }
     let cs = client_stream(sc, 0);
     let orderly = cs.half_closed && !cs.closed && !cs.reset && sc.conns[0].cut.is_none() && sc.conns[0].capacity.is_none();
     let mut f;
@@ -305,7 +361,7 @@ impl Check for C15 {
     }
     fn rule(&self, tier: Tier) -> String {
         format!(
-            "(a) for each of the {} corpus conversations (and a respond-without-reading variant): {} prefix length k x {{half-close, close, reset}} x {{server quiescent before the client ends, client ends at once}}; (b) for each response kind {:?}: client gone after exactly j response bytes, j = {}, by close and by reset; client not reading (1 KiB window) then closing/resetting; client gone before the application answers; {} fault scenarios, each followed by a fresh connection that must be served; oracle: nothing incomplete is delivered, after an orderly close everything complete is delivered and answered (reference model), respond() returns Ok, body reads end (no hang), no panic",
+            "300 (thorough also 1100) clients one after the other, each sending a different prefix of a request (inside the head, inside a 1500-byte body, complete + pipelined GET) and then closing / resetting / half-closing: no panic, a fresh connection is served afterwards, at most the minimum workers remain 6 s after the server is dropped; (a) for each of the {} corpus conversations (and a respond-without-reading variant): {} prefix length k x {{half-close, close, reset}} x {{server quiescent before the client ends, client ends at once}}; (b) for each response kind {:?}: client gone after exactly j response bytes, j = {}, by close and by reset; client not reading (1 KiB window) then closing/resetting; client gone before the application answers; {} fault scenarios, each followed by a fresh connection that must be served; oracle: nothing incomplete is delivered, after an orderly close everything complete is delivered and answered (reference model), respond() returns Ok, body reads end (no hang), no panic",
             the_corpus().len(), if full(tier) { "every" } else { "every syntactic-boundary (+-2) " },
             response_kinds().iter().map(|k| k.0).collect::<Vec<_>>(),
             if full(tier) { "0..2048, 4096, 5200 (70000-byte bodies: 9 offsets up to 70100)" } else { "0..2048 step 7, 1023..1025, 4096, 5200" },
